@@ -3,6 +3,7 @@ package ringbuffer
 // Channel B for C12 (ring-buffer pool): Get must hand out an empty ring held by nobody else.
 
 import (
+	"fmt"
 	"os"
 	"runtime"
 	"sync"
@@ -32,6 +33,26 @@ func TestVerifRingPoolTrace(t *testing.T) {
 		tr.Emit(map[string]any{"ev": "Reset"})
 		mu.Unlock()
 		p := &Pool{}
+		if hno == 0 {
+			// the whole ladder of capacities once, 64 bytes to 128 MiB: rings of every size go back to the pool and
+			// come out of it empty and exclusive
+			for k := 6; k <= 27; k++ {
+				b := p.Get()
+				tr.Emit(map[string]any{"ev": "RingGet", "ring": idOf(b), "empty": b.IsEmpty(), "buffered": b.Buffered(), "cap": b.Cap()})
+				_, _ = b.Write(make([]byte, 1<<uint(k)))
+				_, _ = b.Discard(1 << uint(k-1))
+				tr.Emit(map[string]any{"ev": "RingPut", "ring": idOf(b)})
+				func() {
+					defer func() {
+						if r := recover(); r != nil {
+							rep.Violation("ringpool/put-panic", fmt.Sprintf("Put of a ring buffer of capacity %d: %v", b.Cap(), r), nil)
+						}
+					}()
+					p.Put(b)
+				}()
+				rep.Eval(fmt.Sprintf("ladder-%d", k))
+			}
+		}
 		workers := 1 + 3*(hno%2)
 		var wg sync.WaitGroup
 		for w := 0; w < workers; w++ {
